@@ -242,6 +242,12 @@ def _(I): return I.u.z2inv(np.array(ref.to_g(I.c1.L), dtype=np.int_))
 def _(I): return I.u.mask(I.q, I.N)
 @op('k/binary_repr')
 def _(I): return I.u.binary_repr(I.idx(np.arange(2 ** I.N)), I.N)
+@op('k/binary_repr-wide')
+def _(I):
+    # integers beyond one byte, default and explicit widths (density_matrix uses arange(2^(N-r)) with N-r up to the register size)
+    w = I.d['wide']
+    top = max(max(w), 1)
+    return (I.u.binary_repr(I.idx(w)), I.u.binary_repr(I.idx(w), top.bit_length()), I.u.binary_repr(I.idx(w), top.bit_length() + I.d['i0']))
 @op('k/aggregate')
 def _(I):
     n = len(I.K)
@@ -441,10 +447,28 @@ def st_inputs(hiN):
             'small': st.fixed_dictionaries({str(n): gen.st_clifford_rows(n) for n in range(1, N + 1)}),
             'gens': st.fixed_dictionaries({str(n): gen.st_herm(n) for n in range(1, N + 1)}),
             'obs': gen.st_commuting_obs(N, 1, N), 'stabs': gen.st_independent_stabs(N), 'sel': st.lists(st.integers(0, 1), min_size=4, max_size=40),
-            'i0': st.integers(0, 7), 'bits': st.lists(st.integers(0, 1), min_size=N, max_size=N),
+            'i0': st.integers(0, 7), 'wide': st.lists(st.integers(0, 2 ** 7) | st.integers(0, 2 ** 20), min_size=1, max_size=6), 'bits': st.lists(st.integers(0, 1), min_size=N, max_size=N),
             'prog': gen.st_program(N, 5, ['rot', 'rotc', 'fmap', 'bmap'])})
     return st.integers(1, hiN).flatmap(inner).map(lambda d: {'d': d})
 
 
 FACETS = [Facet('diff/' + name, make_fn(name), strategy=lambda t: st_inputs(3), examples={'quick': 120, 'thorough': 6000},
                 shards={'quick': 1, 'thorough': 2}, backend='both') for name in OPS]
+
+
+# ---- larger registers: density matrices of 9..10 qubits (the integer range crosses one byte inside density_matrix)
+def f_density_large(case):
+    N, r = case['N'], case['r']
+    c = ref.random_big_clifford(N, case['seed'], 3 * N)
+    out = {}
+    for be in ('np', 'torch'):
+        Bk = B.backend(be)
+        out[be] = norm(Bk.state(c, r).density_matrix, Bk)      # string -> coefficient (phases folded in)
+    check(len(out['np'][1]) == 2 ** (N - r), 'pyclifford density_matrix has %d distinct terms, expected %d' % (len(out['np'][1]), 2 ** (N - r)), 'large-density-np')
+    check(same(out['np'], out['torch']), 'density_matrix of a %d-qubit rank-%d state differs between the packages (%d vs %d distinct terms)' % (N, r, len(out['np'][1]), len(out['torch'][1])), 'large-density')
+    return {'nt': N - r >= 9, 'labels': ['N-r=%d' % (N - r)]}
+
+
+FACETS.append(Facet('diff/density_matrix-large-N', f_density_large, backend='both',
+                    strategy=lambda t: st.integers(8, 10).flatmap(lambda N: st.fixed_dictionaries({'N': st.just(N), 'r': st.integers(0, 1), 'seed': st.integers(0, 10 ** 6)})),
+                    examples={'quick': 12, 'thorough': 150}, shards={'quick': 2, 'thorough': 4}))
